@@ -3,7 +3,7 @@ from checks import krill_common as kc
 
 PID = "C03"
 LEVEL = "model_checking"
-THEMES = "life,roll,multi,mix,foreign,deep,autosus".split(",")
+THEMES = "life,roll,multi,mix,foreign,deep".split(",")
 NEEDED = "Settled".split(",")
 
 RULE = (
